@@ -14,13 +14,13 @@ let mk_cfg mh mb tolws tollim =
 (* deviation mask: one character per flag, in the order of the record *)
 let mk_devs (m : string) : devs =
   let g i = String.length m > i && m.[i] = '1' in
-  { dv_trailer = g 0; dv_empty_chunk_line = g 1; dv_reqline_lf = g 2; dv_te_http10 = g 3;
-    dv_clte_keepalive = g 4; dv_conn_list = g 5; dv_te_ws_element = g 6; dv_target_dslash = g 7 }
+  (* a one-field record is extracted as its field *)
+  g 0
 
 let outcome_str d (o : ref_outcome) : string = match o with
   | Deliver (m, close) ->
     String.concat " " ["D"; hex_of_bytes m.m_method; hex_of_bytes m.m_target; hex_of_bytes m.m_version;
-                       dict_str (delivered_view d m); hex_of_bytes m.m_body; b2s close]
+                       dict_str (delivered_view m); hex_of_bytes m.m_body; b2s close]
   | Refuse code -> "R " ^ dec_of_n code
   | Incomplete -> "I"
 
